@@ -230,7 +230,7 @@ func execute(c Case, tr *rec) batch.Result {
 				fail(cl, "%s: linter process %d completed but printed something else than a run without cache history:\n%s\n(- without cache history, + this process)\nstderr: %s%s", what, i+1, d, o.Stderr, extra)
 			}
 		}
-		digests = append(digests, dg)
+		digests = append(digests, dg^simlint.DiskDigest(disk))
 		if res.Violation != nil {
 			break
 		}
